@@ -82,7 +82,10 @@ def class_attr(I, st, pyclass, attr, recv, node):
             return I.ctx.func_from_real(raw, None)
         return I.ctx.func_from_real(raw, recv)
     if isinstance(raw, property):
-        raise OutOfSubset(f"property {pyclass.__name__}.{attr}")
+        if recv is None or raw.fget is None:
+            raise OutOfSubset(f"property {pyclass.__name__}.{attr}")
+        from .calls import call_function
+        return call_function(I, st, I.ctx.func_from_real(raw.fget, recv), [], {}, node)
     if type(raw).__name__ in ("PydanticDescriptorProxy", "ModelPrivateAttr", "member_descriptor", "getset_descriptor"):
         return _MISSING
     return I.ctx.convert_global(st, raw, f"{owner.__name__}.{attr}")
@@ -101,6 +104,17 @@ def set_attr(I, st, base, attr, v, node):
     if isinstance(base, Ref):
         o = st.obj(base)
         if isinstance(o, RecObj):
+            if o.pyclass is not None and attr not in o.fields:
+                for klass in o.pyclass.__mro__:
+                    raw = klass.__dict__.get(attr)
+                    if isinstance(raw, property):
+                        if raw.fset is None:
+                            raise SymRaise(ClassVal("AttributeError", AttributeError), st, f"can't set attribute '{attr}'", site)
+                        from .calls import call_function
+                        call_function(I, st, I.ctx.func_from_real(raw.fset, base), [v], {}, node)
+                        return
+                    if raw is not None:
+                        break
             I.ctx.frame_store(I, st, base, node, attr)
             o.fields[attr] = v
             return
